@@ -246,7 +246,7 @@ def finalize(res, tier):
     lim = LIMITS[tier]
     missing = []
     for entry, n, b, w in big_configs(lim['bmax'], lim['wmax']):
-        if entry in ('chain', 'chainmid', 'chainpar'):
+        if entry in ('chain', 'chainmid', 'chainpar', 'parpf1'):
             continue
         tp, ts = TIGHT[entry](b, w)
         key = f'{entry}:b{b}:w{w}'
